@@ -415,6 +415,8 @@ TEMPLATES = [
     (['mat.txt', 'materials/x.vmt', 'x'], 'materials/', 'materials/', 'trailing_sep'),
     (['a.txt', 'materials/sub/y.vtf', 'Models/m.mdl'], 'models', 'Models', 'other_case'),
     (['a.txt', 'materials/x.vmt', 'materials/sub/y.vtf'], 'materials\\sub', 'materials\\sub', 'backslash'),
+    # prefix spelled in upper case over names stored in lower case (the stripping must fold both sides)
+    (['b.txt', 'materials/x.vmt', 'materials/sub/y.vtf'], 'MATERIALS', 'materials', 'upper_case'),
 ]
 CHAIN_QUERIES = ['a.txt', 'A.TXT', 'materials/x.vmt', 'materials/sub/y.vtf', 'Models/m.mdl', 'x.vmt', 'sub/y.vtf',
                  'm.mdl', 'y.vtf', 'z.vmt', 'mat.txt', 'x', 'nope', 'materials2/z.vmt']
@@ -430,7 +432,7 @@ class Member:
         self.files = [(n, f'<{self.id}|{n}>'.encode()) for n in names]
         self.model = Model(self.files)
         self.prefix = raw_prefix if backend == 'raw' else prefix
-        self.prefix_kind = 'plain' if (backend == 'raw' and kind == 'other_case') else kind
+        self.prefix_kind = 'plain' if (backend == 'raw' and kind in ('other_case', 'upper_case')) else kind
         self.exact = backend == 'raw'
         self.fs = None
 
